@@ -2,6 +2,7 @@
    A monitor violation is reported as KNOWN only when the history of the case
    lies inside a class listed for that property. *)
 open Driver
+type string = Stdlib.String.t
 
 let props_of = function
   | "T1" -> ["C01"; "C02"; "C03"; "C05"; "C08"; "C09"; "C20"]
